@@ -79,6 +79,26 @@ deriving Repr, DecidableEq
 /-- offset of the path inside the header -/
 def HdrLayout.pathOff (l : HdrLayout) : Nat := CommonHeader.SIZE_BYTES + addrHdrSize l.srcLen l.dstLen
 
+/-- the common-header fields the size computation reads -/
+structure CommonFields where
+  ver : Nat
+  pt : Nat
+  st : Nat
+  dt : Nat
+  hl : Nat
+  pl : Nat
+
+def commonFields (buf : Bytes) : CommonFields :=
+  let cb := buf.take CommonHeader.SIZE_BYTES
+  ⟨readBits cb CommonHeader.VERSION_RNG, readBits cb CommonHeader.PATH_TYPE_RNG,
+   readBits cb CommonHeader.SRC_ADDR_INFO_RNG, readBits cb CommonHeader.DST_ADDR_INFO_RNG,
+   readBits cb CommonHeader.HEADER_LEN_RNG, readBits cb CommonHeader.PAYLOAD_LEN_RNG⟩
+
+/-- the three segment lengths of a path meta header at byte offset `off` -/
+def segFields (buf : Bytes) (off : Nat) : Nat × Nat × Nat :=
+  let mb := (buf.drop off).take StdPathMeta.SIZE_BYTES
+  (readBits mb StdPathMeta.SEG0_LEN_RNG, readBits mb StdPathMeta.SEG1_LEN_RNG, readBits mb StdPathMeta.SEG2_LEN_RNG)
+
 /-- the "Important Checks" at the end of `ScionHeaderLayout::try_from_slice` -/
 def Header.finish (len srcLen dstLen pt pl total : Nat) (segs : Nat × Nat × Nat) (pathSize : Nat) :
     Except VErr HdrLayout :=
